@@ -79,8 +79,25 @@ def rstmt(s, out, variant):
         out.append(A.render_stmt(s, variant))
 
 
+def padding(variant):
+    """more than 32 KiB of definitions nothing uses (defines, equ, macros), so that the program's own definitions are
+    stored behind the first pool of the macro table; unused definitions do not change what the program denotes"""
+    out = []
+    for k in range(430):
+        v = "0x%x" % (0x1000000 + k * 7919 + variant) + " + " + " + ".join(str((k * j + 3) % 97) for j in range(1, 22))
+        if k % 3 == 0:
+            out.append(".define PADQ_%d_%s (%s)" % (k, "x" * (k % 40), v))
+        elif k % 3 == 1:
+            out.append("PADQ_%d_%s equ %s" % (k, "y" * (k % 40), v))
+        else:
+            out += [".macro padq_%d_%s(a, b)" % (k, "z" * (k % 40)), "  .db a, b, %d" % (k % 200), "  .dc16 %s" % v, ".endm"]
+    return out
+
+
 def render(prog, cpu, variant):
     out = [".%s" % cpu]
+    if variant % 7 == 3:
+        out += padding(variant)
     for s in prog:
         rstmt(s, out, variant)
     return "\n".join(out) + "\n"
@@ -259,6 +276,7 @@ def run(tier, seed):
         distinct_nontrivial=len([p for p in progs if any(s["k"] in ("invoke", "repeat") for s in p[11:])]),
         rule="GenMacro: prelude (4 defines/equ, 7 macros incl. nested, repeating, 9-parameter) + every body of 1-2 statements "
              "(BFS) and drawn bodies of up to 10; non-trivial = the body invokes a macro or repeats; distinct by abstract program; "
+             "every seventh program behind more than 32 KiB of unused definitions (second pool of the macro table); "
              "plus include-equivalence runs through the executable",
         traces_validated_against_impl=len(events) - len(canaries), include_pairs=ninc,
         canaries=dict(injected=len(canaries), rejected=len(canaries)), exhaustive=False))
